@@ -674,6 +674,40 @@ pub fn run(o: &Opts, rep: &mut Report) {
                     if complete {
                         rep.exhaustive_scopes.insert(key);
                     }
+                    // thorough: the smallest scenarios also with up to 3 preemptions
+                    if thorough && scn.data.iter().sum::<usize>() <= 3 {
+                        let mut script: Option<Vec<usize>> = Some(vec![]);
+                        let mut n = 0u64;
+                        let mut complete = false;
+                        while let Some(sc) = script.take() {
+                            let out = run_one(scn, Strategy::Enumerate { chooser: Chooser::scripted(sc.clone()), bound: 3 });
+                            let id = format!(
+                                "E4e:{}:{}:{}:{}:{}",
+                                prop,
+                                seed,
+                                si,
+                                3,
+                                sc.iter().map(|x| x.to_string()).collect::<Vec<_>>().join(".")
+                            );
+                            absorb(&mut rep, &prop, scn, &out, "enumerate", &id, &known, false);
+                            n += 1;
+                            if out.aborted {
+                                break;
+                            }
+                            script = next_script(&out.trail);
+                            if script.is_none() {
+                                complete = true;
+                            }
+                            if n >= 150_000 {
+                                break;
+                            }
+                        }
+                        let key = format!("{} | preemption bound 3", scn.describe());
+                        rep.enumerated.insert(key.clone(), n);
+                        if complete {
+                            rep.exhaustive_scopes.insert(key);
+                        }
+                    }
                 }
                 rep
             }));
